@@ -156,7 +156,8 @@ def run(run):
                     qb.add(f"(not (= {qb.var(xe.wname(acc))} (mod {qb.var(xe.wname(inp))} {1 << (2 * P)})))")
                     run.query(f"logic/{op}/sound/bind-{side}/P{P}", qb, "unsat", "gadget-soundness",
                               replay=gadget_replay(run, ["logic", op, P], layout, violated,
-                                                   complete=(rowsem, [acc, inp])), meta=meta)
+                                                   complete=("logic", rowsem, pats, lrows + [lrows[-1] + 1], last[0], last[1],
+                                                             ["logic", op, P])), meta=meta)
             else:
                 q = xe.Query()
                 xe.apply_bounds(q, bounds)
